@@ -379,6 +379,8 @@ for fld, ex in [("Position.StartLine", "GetLine(GetStart(%s))" % MRID), ("Positi
                 ("Position.StopLinePosition", "GetColumn(GetStart(%s)) + len(GetText(%s))" % (MRID, MRID)), ("FunctionName", "GetText(%s)" % MRID)]:
     row(props=["C05", "C02"], func=FL + "(JavaFullListener).EnterExpression", params=["s", "ctx"], kind="callarg", callee=FL + "sendResultToMethodCallMap", arg=0, field=fld, expr=ex,
         what="method reference Type::name: the recorded position selects the name: " + fld)
+row(props=["C16"], func="cmd.processTopFile", params=["dir"], kind="callguard", callee="cmd/cmd_util.NewOutput", each={"as": "summary"}, expr="true",
+    what="every language of the tree gets its table of top files, however many languages there are")
 
 json.dump({"e5": rows}, open(os.path.join(os.path.dirname(os.path.dirname(os.path.abspath(__file__))), "spec", "e5.json"), "w"), indent=1, ensure_ascii=False)
 print(len(rows), "rows")
